@@ -120,20 +120,14 @@ example : (PLit.setDt {} 3).oneof ∧ (PLit.setLang { lex := "a" } "en").oneof :
 theorem validate_stream_options_eq (d : DecState) (o : Options) :
     (Gen.Decoder.validate_stream_options o).exec d = (d.validateOptions o, d) := by
   unfold Gen.Decoder.validate_stream_options DecState.validateOptions
-  by_cases h1 : d.opts.physical = o.physicalType
-  · by_cases h2 : d.opts.logical = o.logicalType
-    · by_cases h3 : d.opts.streamName = o.streamName
-      · by_cases h4 : o.version ≤ d.opts.version
-        · by_cases h5 : d.opts.maxPrefixes = o.maxPrefixes
-          · by_cases h6 : d.opts.maxDatatypes = o.maxDatatypes
-            · by_cases h7 : d.opts.maxNames = o.maxNames
-              · py_simp [h1, h2, h3, h4, h5, h6, h7]
-              · py_simp [h1, h2, h3, h4, h5, h6, h7]
-            · py_simp [h1, h2, h3, h4, h5, h6]
-          · py_simp [h1, h2, h3, h4, h5]
-        · py_simp [h1, h2, h3, h4]
-      · py_simp [h1, h2, h3]
-    · py_simp [h1, h2]
-  · py_simp [h1]
+  -- all 128 combinations, so that the order of the asserts in the source does not matter
+  by_cases h1 : d.opts.physical = o.physicalType <;>
+  by_cases h2 : d.opts.logical = o.logicalType <;>
+  by_cases h3 : d.opts.streamName = o.streamName <;>
+  by_cases h4 : o.version ≤ d.opts.version <;>
+  by_cases h5 : d.opts.maxPrefixes = o.maxPrefixes <;>
+  by_cases h6 : d.opts.maxDatatypes = o.maxDatatypes <;>
+  by_cases h7 : d.opts.maxNames = o.maxNames <;>
+  py_simp [h1, h2, h3, h4, h5, h6, h7]
 
 end Jelly.Translated
